@@ -49,7 +49,12 @@ class JsonShim:
         self.dumps = json.dumps
 
     def load(self, fh):
-        return list(self.STORE[os.path.abspath(fh.name)])
+        p = os.path.abspath(fh.name)
+        if p in self.STORE:
+            return list(self.STORE[p])
+        # not written by this run (a file some other run left): its real
+        # content
+        return json.loads(open(p).read())
 
 
 class SeededRng:
@@ -110,7 +115,8 @@ def save_results_stub(result, path):
         f.write('placeholder')
 
 
-def run_dispatch(ctx, case, faults=False, through_runner=True):
+def run_dispatch(ctx, case, faults=False, through_runner=True,
+                 before=None):
     """returns dict(out=..., raised=..., names, tags, draws, procs)"""
     nrows = case['rows']
     enc = case.get('enc', 'dense')
@@ -165,6 +171,8 @@ def run_dispatch(ctx, case, faults=False, through_runner=True):
         hierarchy = ['L']
     res = {'names': names, 'tags': tags, 'rng': rng, 'env': env,
            'nproc': nproc, 'chunk': chunk, 'qpath': qpath}
+    if before is not None:
+        before(env)
     try:
         if through_runner:
             out = er.run_type_assignment_on_h5ad(
